@@ -67,7 +67,9 @@ var (
 	poolEC  []*KeyPair
 	poolEd  []*KeyPair
 	poolRSA []*KeyPair
-	poolAll []*KeyPair
+	// poolRSABig: 4096 and 8192 bits
+	poolRSABig []*KeyPair
+	poolAll    []*KeyPair
 )
 
 func init() {
@@ -86,7 +88,9 @@ func init() {
 	// (the last two have a modulus whose bit length is not a multiple of 8:
 	// RFC 8230 asks for at least 2048 bits, not for a byte-aligned size)
 	// (and one with the public exponent 3, as legacy tools and tokens make them)
-	for i, f := range []string{"rsa2048a", "rsa2048b", "rsa3072", "rsa2050", "rsa2060", "rsa2048e3"} {
+	// (and, kept apart because every operation with them is slow, the sizes
+	// above the common ones: nothing in RFC 8230 caps the modulus)
+	for i, f := range []string{"rsa2048a", "rsa2048b", "rsa3072", "rsa2050", "rsa2060", "rsa2048e3", "rsa4096", "rsa8192"} {
 		raw, err := keyFS.ReadFile("keys/" + f + ".pem")
 		if err != nil {
 			panic(err)
@@ -97,7 +101,12 @@ func init() {
 			panic(err)
 		}
 		k.Precompute()
-		poolRSA = append(poolRSA, &KeyPair{Name: f, Alg: []int64{-37, -38, -39, -37, -39, -37}[i], Priv: k, Pub: &k.PublicKey})
+		kp := &KeyPair{Name: f, Alg: []int64{-37, -38, -39, -37, -39, -37, -39, -37}[i], Priv: k, Pub: &k.PublicKey}
+		if k.N.BitLen() > 3072 {
+			poolRSABig = append(poolRSABig, kp)
+			continue
+		}
+		poolRSA = append(poolRSA, kp)
 	}
 	poolAll = append(poolAll, poolEC...)
 	poolAll = append(poolAll, poolEd...)
@@ -128,6 +137,9 @@ func pickKey(t *tape.Tape) *KeyPair {
 		return poolEC[6+t.Choose(3, "key.p521")]
 	case 4:
 		k := poolRSA[t.Choose(len(poolRSA), "key.rsa")]
+		if t.Bool(1, 12, "key.rsa.big") {
+			k = poolRSABig[t.Choose(len(poolRSABig), "key.rsa.big.which")]
+		}
 		if t.Bool(1, 3, "key.rsa.otherhash") {
 			return k.withAlg([]int64{-37, -38, -39}[t.Choose(3, "key.rsa.alg")])
 		}
